@@ -10,8 +10,10 @@ PROP = {
         "GunYu.Props.C05.disk_refines",
         "GunYu.Props.C05.disk_closed_reader_read_fails",
         "GunYu.Props.C05.disk_closed_reader_frozen",
-        "GunYu.Props.C05.disk_reset_closes_readers",
-        "GunYu.Props.C05.disk_writer_replacement_closes_stream_readers",
+        "GunYu.Props.C05.disk_invalidation_closes_readers",
+        "GunYu.Props.C05.disk_reader_stays_open",
+        "GunYu.Props.C05.disk_snapshot_hands_over",
+        "GunYu.Props.C05.disk_gc_drops_only_unreferenced_snapshot",
         "GunYu.Props.C05.disk_reader_progress",
         "GunYu.Props.C05.disk_valid_iff_readable",
         "GunYu.Props.C05.disk_snapshot_offered_iff_complete",
@@ -29,6 +31,7 @@ PROP = {
     "harness": [
         {"name": "C05", "pkg": "./pkg/store/", "test": "TestVerifC05"},
         {"name": "C05mem", "pkg": "./syncer/", "test": "TestVerifC05mem"},
+        {"name": "C05chan", "pkg": "./syncer/", "test": "TestVerifC05chan"},
     ],
     "driver": "drv_C05",
     "rule": "generated operation sequences (150-250 ops per case; LogSize 32..256, MaxSize 2..7 segments or 0) executed sequentially "
@@ -41,8 +44,14 @@ PROP = {
             "boundary, GetOffsetRange, GetRdb, LatestOffset/StartPoint, and the internal index (segments with sizes and reference counts, "
             "snapshot, directory listing / totalSize) are compared line by line with the Lean model; every byte read is compared with the "
             "model and, independently, with the bytes the harness wrote at that offset (monitor), plus: valid => readable, offered snapshot "
-            "=> complete or live, invalidated reader ends or fails, no operation hangs. distinct_nontrivial = cases with rotation and a reader "
-            "that crossed a segment boundary",
+            "=> complete or live, invalidated reader ends or fails, no operation hangs (every read has a 1.5 s budget, whole-test watchdog). "
+            "SetRunId with the SAME id (StartPoint -> VerifyRunId at every source reconnect) is issued at any time with readers and writers open, "
+            "an id switch with readers open. Third harness C05chan (monitor only, real time, both backends through the Channel interface): "
+            "NewAofWritter/NewRdbWriter + Start (real ingest, snapshot and stream over ONE source connection), NewReader + ChannelReader.Start "
+            "(real pump / copy loop, pipe, bufio) + IoReader, run-id wrappers (foreign id, '?', StartPoint at reconnect), reference-leak check after "
+            "ChannelReader.Close / WaitCloser, chunks and segments up to 9 KiB / 40 KiB, > 1.3 MiB through one pipe with a lagging consumer, and a "
+            "concurrent phase (writer, 2 followers, 3 openers at the left edge, collector loop as real goroutines). "
+            "distinct_nontrivial = cases with rotation and a reader that crossed a segment boundary",
     "trusted": [
         "testing/synctest quiescence (memory harness): after synctest.Wait every goroutine of the channel is durably blocked",
         "reference counts are derived from the reader list in the model; the harness compares them with rwRef / readers.Load() after every op",
@@ -50,11 +59,13 @@ PROP = {
     "assumptions": [
         "callers' protocol (Disk.okOp): a disk stream writer continues where the held stream ends (input.go/replica.go pass LatestOffset / the snapshot offset); "
         "the disk backend itself does not check this (the memory backend does: mem_refuses_discontinuous)",
-        "SetRunId re-scan / id switch on the disk backend only with no reader or writer open (a re-scan swaps the index under open readers); DelRunId and new snapshots at any time",
+        "a replication-id SWITCH on the disk backend happens between two runs of the input: no writer open (readers may be open and are closed by it); "
+        "the same id again is allowed at any time (D27 fixed: it no longer re-scans)",
         "thread interleavings INSIDE one mutex-protected step and the 10 ms poll / os.Stat race of tryReadNextFile are outside the step-level model; "
         "a real-goroutine stress phase (writer closed while an endless 1-byte source is being ingested) supports the tie and found D26",
         "memory harness: an append is limited to one mutex-protected piece whenever the collector could run inside it (between two pieces the copy goroutines race with the writer)",
-        "StoreChannel's thin run-id wrappers (syncer/channel.go) are not driven by the disk harness; MemoryChannel's are",
+        "the disk model has one run-id directory (SetRunId between two existing directories / DelRunId of a foreign id are C16's subject)",
+        "C05chan is monitor-only: with real pump goroutines the segment a reader holds at a given instant is not a function of the op sequence",
     ],
     "partial": [
         "mem_reader_delivers_stmt (global refinement of the memory backend over operation lists) is stated, not proved; proved for memory are the step-level theorems "
@@ -62,7 +73,8 @@ PROP = {
         "finishRdb/collector make it unreplayable when incomplete, copy steps deliver exactly the held segment's bytes, reset empties the index and successor lookup is by identity",
         "disk refinement is proved as `abs s = suffix of the written history from abs.base` in every reachable state (disk_refines) + the per-op history lemma; "
         "a separate abstract transition system with a simulation relation is not defined",
-        "the concurrent stress phase covers the memory writer close/rotation race only; a full -race run with several readers, writer and collector is not part of the check",
+        "concurrency: real-goroutine phases (memory writer close vs rotation; C05chan: writer + followers + openers + collector) are probabilistic support, not run under -race",
+        "disk_reader_progress is one-step enabledness (a read delivers or the rotation step is enabled); a catch-up theorem (the reader REACHES the end under interleaved gc/appends) is not proved",
     ],
 }
 
@@ -70,9 +82,10 @@ MANIFEST = {
     "text": "Step-level Lean models of the disk index (Storer/dataSet/AofRotater/AofRotateReader/RdbWriter) and of MemoryChannel; a reader's move to the next segment is two "
             "steps so the collector can interleave. Proved for ALL operation lists respecting the callers' protocol (disk): every open stream reader delivered exactly the "
             "bytes appended at [start,pos), snapshot readers exactly the snapshot bytes, closed/invalidated readers fail and never deliver again, resets and writer "
-            "replacement close readers, a valid reader can always make progress, held range contiguous, IsValidOffset <-> GetReader finds data, snapshot offered <-> complete or "
-            "being written, collector drops only an unreferenced prefix. Memory: step-level theorems for every state (refusal of discontinuous writers, collector, snapshot "
-            "offer, faithful copy steps, identity-based successor). Tie: generated op sequences on the real Storer and the real MemoryChannel (synctest), every answer, "
+            "replacement / id switch close readers and nothing else does, a valid reader can always make a step, held range contiguous, IsValidOffset <-> GetReader finds data, "
+            "snapshot offered <-> complete or being written and its offset lies in a held segment, collector drops only an unreferenced prefix / snapshot. "
+            "Memory: NO global byte-faithfulness theorem (correspondence + monitor only); proved are one-step facts for every state (collector removes only a closed "
+            "unreferenced prefix, finishRdb keeps only complete snapshots, collected snapshot not offered, successor lookup by identity). Tie: generated op sequences on the real Storer and the real MemoryChannel (synctest), every answer, "
             "reference count and byte compared with the model and with independent bookkeeping.",
     "note": "trusted: Lean kernel, harness, synctest quiescence; assumptions: callers' protocol for disk writers, no re-scan with open readers; partial: global memory refinement stated not proved. "
             "Defects fixed: D14 (memory+disk), D17, D20-D25 (see known_findings.d/C05.json).",
